@@ -5,7 +5,6 @@ package c10
 
 import (
 	"fmt"
-	"sort"
 	"strings"
 
 	securityclient "istio.io/client-go/pkg/apis/security/v1"
@@ -111,26 +110,7 @@ func observeAmbient(c caseT, o *observation) {
 		objs = append(objs, p.asKube())
 	}
 	all, keys := ambient.VerifPeerAuthPolicies(rootNS, objs, []ambient.VerifWorkload{{Namespace: wlNS, Labels: wlLabels}})
-	bodies := map[string]*security.Authorization{}
-	for _, wa := range all {
-		if wa.Authorization != nil {
-			bodies[wa.ResourceName()] = wa.Authorization
-		}
-	}
-	o.AmbientKeys = append([]string(nil), keys[0]...)
-	sort.Strings(o.AmbientKeys)
-	var attached []*security.Authorization
-	for _, k := range o.AmbientKeys {
-		if b := bodies[k]; b != nil {
-			attached = append(attached, b)
-		} else {
-			o.AmbientNoBody = append(o.AmbientNoBody, k)
-		}
-	}
-	for _, q := range evalPorts {
-		o.AmbientPlain[q] = !allowed(attached, conn{port: q})
-		o.AmbientAuth[q] = !allowed(attached, conn{principal: "cluster.local/ns/" + clientNS + "/sa/default", namespace: clientNS, port: q})
-	}
+	judgeAmbient(all, keys[0], o)
 }
 
 // ---- interpreter of workloadapi/security.Authorization (as documented in authorization.proto and
